@@ -61,8 +61,8 @@ ASSUMPTIONS = [
     "or a comparison is not boosted directly (no documented syntax)",
     "SimpleParser/DisMaxParser language: '+w' required, '-w' prohibited, bare words/phrases optional (flat OR) as "
     "documented for PlusMinusPlugin; an expression with only prohibited words is not generated (no documented reading)",
-    "nesting depth of generated strings is <= 120 in population A; population B (soup: ~0.3% of strings) nests 300 "
-    "groups, where the parser's recursive filters exceed the interpreter's recursion limit with some openers: a "
+    "nesting depth of generated strings is <= 120 in population A; population B (soup: ~0.3% of strings) nests 1000 "
+    "groups, where the parser's recursive filters exceed the interpreter's recursion limit: a "
     "RecursionError there is classified as the listed finding known:recursion-limit-on-deep-nesting, anywhere else "
     "it is a violation; every case is bounded (<= ~3000 characters) and a hang is turned into inconclusive by the "
     "framework's shard watchdog, not into a verdict",
@@ -302,9 +302,11 @@ def gen_soup(rng, W):
         return "".join(parts), tuple(classes)
     if r < 0.78:
         depth = rng.choice([1, 2, 3, 5, 10, 20, 40, 40, 80, 120])
-        if rng.random() < 0.04:
-            depth = 300     # population B: deep enough for the recursive filters to hit the interpreter's limit
         opener = rng.choice(["(", "t:(", "NOT (", "(a ", "((", "\"(", "k:(b OR "])
+        if rng.random() < 0.04:
+            # population B: deep enough for the recursive filters to hit the interpreter's recursion limit
+            depth = 1000
+            opener = rng.choice(["(", "t:(", "NOT (", "k:(b OR "])
         inner = rng.choice(["", "a", "a OR b", "AND", "NOT", "n:1", "*", "[a TO b]"])
         closer = rng.choice([")", ")", ")^2", "", ") AND ", ")~"])
         ncl = max(0, depth + rng.choice([0, 0, -1, 1, -depth]))
